@@ -2,6 +2,7 @@ import ScnVerif.Lemmas.CascadeSort
 import ScnVerif.Lemmas.CascadeComplete
 import ScnVerif.Lemmas.CascadeHull
 import ScnVerif.Lemmas.CascadeRounding
+import ScnVerif.Lemmas.CascadeTypedGlue
 /-!
 # C11 — chopper-cascade frames are exactly the set of transmitted neutrons
 
@@ -574,6 +575,39 @@ def RegularPreservedRounded (β : Type) [Add β] [Sub β] [Mul β] [Div β] [OfN
     isRegular out = true
 
 end Rounding
+
+/-! ## dtype-dependent behaviour (hooks) -/
+section Hooks
+variable {β : Type} [Add β] [Sub β] [Mul β] [Div β] [OfNat β 1] [LE β] [DecidableLE β] [LT β] [DecidableLT β]
+
+/-- the versions of the model that carry the dtype-dependent behaviour of the code (single precision
+cast in `propagate_times`, `DTypeError` of `sc.concat` in `_chop`, `UnitError` for window times in
+another unit) — run at the typed carrier `TV` against typed operands — are the plain functions all
+theorems above are about whenever that behaviour does not occur (trivial hooks: double precision) -/
+theorem hooked_model_is_plain (k : Consts β) (frames : List (Frame β)) (f : Frame β) (c : Chopper β)
+    (cs : List (Chopper β)) (d : β) :
+    f.chopH Hooks.trivial k c = f.chop k c ∧
+    f.propagateToH Hooks.trivial k d = f.propagateTo k d ∧
+    seqChopH Hooks.trivial k frames cs = seqChop k frames cs ∧
+    seqPropagateToH Hooks.trivial k frames d = seqPropagateTo k frames d ∧
+    seqGetItemH Hooks.trivial k frames d = seqGetItem k frames d :=
+  ⟨chopH_trivial k f c, propagateToH_trivial k f d, seqChopH_trivial k frames cs,
+    seqPropagateToH_trivial k frames d, seqGetItemH_trivial k frames d⟩
+
+/-- with arbitrary hooks, `_chop`'s vertices are still those of the plain `_chop` (the hook only
+decides whether `sc.concat` accepts them) -/
+theorem hooked_chop_vertices (H : Hooks β) (c : β) (dir : Bool) (poly out : Poly β)
+    (h : chopStepH H c dir poly = .ok (some out)) : chopStep c dir poly = some out := by
+  unfold chopStepH at h
+  cases hc : chopStep c dir poly with
+  | none => simp [hc] at h
+  | some o =>
+    simp only [hc] at h
+    split at h
+    · simp only [Except.ok.injEq, Option.some.injEq] at h; rw [h]
+    · cases h
+
+end Hooks
 
 /-! ## non-vacuity: a concrete cascade over ℚ -/
 section Examples
